@@ -85,6 +85,7 @@ class Run:
         self.distinct = set()
         self.nprefix = 0
         self.tie_jobs = []
+        self.leader_shifts = False      # set by the witness replay at the start of the run (behaviour, not source)
 
     # ------------------------------------------------------------------ one pair of runs
     def prefix(self, phase):
@@ -189,6 +190,16 @@ class Run:
                 if mask_all or any(d["c"] == c and d["pos"] >= p for c, p in masked):
                     nmask += 1
                     continue
+                if self.leader_shifts and d["conn_kind"] == "text" and any(p < d["i"] for p in pushes.get(d["c"], [])):
+                    # the witness replay of this run showed that the leader's text connection hands out the previous result
+                    # after a PUSH; a shifted result can carry the right LOCK_ID (UNLOCK of the PUSHed lock), so the echo
+                    # monitor alone does not see it
+                    sigs.append(("leader-text-push-result-shifts-replies",
+                                 "on a text connection to the LEADER the result of a PUSH stays in the reply channel: a later command is handed the previous command's result",
+                                 {"diff": d}, False))
+                    masked.add((d["c"], ia[min(pushes[d["c"]])]["pos"]))
+                    nmask += 1
+                    continue
                 sigs.append(("reply-differs:%s:%s:%s:%s->%s" % (sc["family"], d["conn_kind"], d["op"], result_of(d["leader"]), result_of(d["follower"])),
                              "the reply obtained through the follower differs from the reply the leader gives to the same command", {"diff": d}, True))
             elif d["kind"] == "extras":
@@ -256,7 +267,8 @@ class Run:
                 ctx.violation(sig, what + " (reproduced 3 of 3 times on fresh keys)", dict(self.sample(pair, sig), detail=detail))
             else:
                 self.cov["flaky_unconfirmed"] += 1
-                ctx.notes.append("not reproduced (%d of 3): %s on %s" % (hits, sig, pair["script"]["id"]))
+                dd = detail.get("diff") or detail
+                ctx.notes.append("not reproduced (%d of 3): %s on %s: %s" % (hits, sig, pair["script"]["id"], json.dumps(dd, sort_keys=True)[:700]))
         for pair in pairs[:2]:
             if len(self.cov["samples"]) < 8:
                 s = self.sample(pair)
@@ -307,6 +319,7 @@ class Run:
         res = {"leader_shifted": lead1["shifted"], "follower_shifted": foll1["shifted"], "leader_pushes_answered_of_6": lead6["pushes_answered"],
                "follower_pushes_answered_of_6": foll6["pushes_answered"], "leader_ping_after_6_pushes": lead6["ping_answered"]}
         self.cov["witness_replays"] = res
+        self.leader_shifts = bool(lead1["shifted"])
         self.cov["evaluations"] += 4
         model_shift = not flags["push_guard"]
         ctx.obligation("witness replay: Relay.direct_push_shifts [DPush now; DWait now] on the real leader (model: %s, observed: %s)"
@@ -325,6 +338,19 @@ class Run:
         if foll6["pushes_answered"] < 6 or not foll6["ping_answered"] or not foll6["lock_reply_is_own"]:
             ctx.violation("follower-text-push-blocks-or-shifts", "six PUSHes through the follower", {"run": foll6})
         return res
+
+    def stale_probe(self, cl):
+        ctx = self.ctx
+        r = self.scenarios.stale_probe(cl, self.prefix("S"), self.prefix("S"))
+        self.cov["stale_probe"] = {k: r[k] for k in ("leader_probe_result", "follower_probe_result", "probe_forwarded", "leader_unlock", "follower_unlock")}
+        self.cov["evaluations"] += 4
+        if r["follower_probe_result"] != r["leader_probe_result"]:
+            if not r["probe_forwarded"] and r["follower_probe_result"] == 8:
+                ctx.violation("follower-probe-answered-from-stale-copy",
+                              "UNLOCK and a concurrent-check probe back to back: the leader grants the probe (result %s), the follower answers it itself with TIMEOUT from "
+                              "its own copy of the lock table, which has not seen the release yet" % r["leader_probe_result"], {"scenario": "stale_probe", "run": r})
+            else:
+                ctx.violation("probe-differs:%s->%s" % (r["leader_probe_result"], r["follower_probe_result"]), "probe outcome differs", {"scenario": "stale_probe", "run": r})
 
     def cut(self, cl, flags, nflight=6, cutafter=None):
         ctx = self.ctx
@@ -510,13 +536,14 @@ def run(ctx):
     try:
         cl.start()
         R.cov["cluster_start_s"] = round(time.time() - t0, 2)
+        R.witnesses(cl, flags)
         batch = 40
         for k in range(0, len(scripts), batch):
             R.differential(cl, scripts[k:k + batch])
         if not getattr(ctx, "replay", None):
             R.follower_state(cl)
-            R.witnesses(cl, flags)
             R.model_tie(cl)
+            R.stale_probe(cl)
             R.cut(cl, flags)
             if thorough:
                 for _ in range(4):
